@@ -77,8 +77,14 @@ def h_cancel(shapes=("indep3", "chain3"), bss=(1,), maxns=(1, None), max_steps=4
             return  # covered by H-submit
         # ---- any later commands
         for k in range(followups):
-            cmd = ex.choice("follow%d" % k, 3)
-            if cmd == 1:
+            cmd = ex.choice("follow%d" % k, 4)
+            if cmd == 3:
+                # resubmit-jobs on the canceled submission (refused while incomplete; once complete it must not hand anything out)
+                w.unlock_observer = None  # (C09's monotonicity clauses hold between resubmissions only)
+                w.user(["jade", "resubmit-jobs", out])
+                obs.prev = None
+                w.unlock_observer = obs
+            elif cmd == 1:
                 w.user(["jade", "try-submit-jobs", out])
                 completion_steps += 1
             elif cmd == 2:
